@@ -232,8 +232,17 @@ def check_property(prop, tier, seed):
                 all_obs.append(ob)
     violations = []
     undecided = []
+    known_obs = []
     for ob in all_obs:
         if ob['status'] == 'failed':
+            from . import stages as _st
+            kf = _st.known_match(prop, ob)
+            if kf:
+                # a deductive obligation that fails because of a committed known finding (identified by
+                # function + clause): reported through the KNOWN-FINDING line, not as a violation
+                ob['status'] = 'known-finding'
+                known_obs.append(kf)
+                continue
             violations.append(ob)
         elif ob['status'] in ('undecided', 'failed-proof'):
             undecided.append(ob)
@@ -254,8 +263,14 @@ def check_property(prop, tier, seed):
         d = ob.get('diag') or {}
         if d.get('rendered'):
             log('  ' + d['rendered'].strip().replace('\n', '\n  ')[:1500])
+    kf_lines = list(extra.get('known_finding_lines', []))
+    for kf in known_obs:
+        if not any(kf['text'] in l for l in kf_lines):
+            kf_lines.append('KNOWN-FINDING: property=%s %s' % (prop, kf['text']))
+    extra.setdefault('known_findings', [])
+    extra['known_findings'] += [dict(k, via='deductive obligation') for k in known_obs]
     write_evidence(prop, tier, seed, units, results, all_obs, infra, violations, undecided, time.time() - t0, extra)
-    for kf in extra.get('known_finding_lines', []):
+    for kf in kf_lines:
         log(kf)
     if vio_lines:
         # the deductive stage's own state is reported too (a violation found by a harness while the verifier
